@@ -1263,13 +1263,18 @@ fn ledger_update(op: &Op, res: &Applied, before: &View, after: &View, led: &mut 
 // ------------------------------------------------------------------ run
 
 pub fn run(cfg: &RunCfg, which: &str) -> Report {
+    run_n(cfg, which, None)
+}
+
+/// `fixed_seqs`: number of sequences regardless of tier/budget (used by C01's market sub-campaign)
+pub fn run_n(cfg: &RunCfg, which: &str, fixed_seqs: Option<u64>) -> Report {
     let prop = which.to_uppercase();
     let mut rep = Report::new(&prop, cfg.seed, &cfg.tier);
     rep.nontrivial_rule = "a sequence is non-trivial when at least one deal was published, one was activated and one payment, completion, termination or time-out changed an escrow or removed a deal; distinct = distinct hash of the op lines".into();
     rep.notes.push("verified deals are excluded (verified_deal = false everywhere): datacap side effects belong to C09".into());
     rep.notes.push("OnMinerSectorsTerminate is always sent with epoch = current epoch, as the only real caller (miner::request_terminate_deals) does".into());
     let (nseq, maxlen) = if cfg.thorough() { (600u64, 220u64) } else { (60, 90) };
-    let nseq = nseq * cfg.budget;
+    let nseq = fixed_seqs.unwrap_or(nseq * cfg.budget);
     let mut lean = if cfg.use_lean { Some(LeanDriver::spawn("market").expect("lean driver")) } else { None };
     let mut seen = HashSet::new();
     let seqs: Vec<u64> = match cfg.only_seq { Some(k) => vec![k], None => (0..nseq).collect() };
